@@ -434,9 +434,12 @@ class World:
     def all_done(self):
         return all(self.done[i] or self.crashed[i] for i in range(self.m))
 
-    def run(self, scheduler, max_steps=400000):
-        """Run to quiescence.  Returns 'done' | 'deadlock' | 'budget'."""
+    def run(self, scheduler, max_steps=400000, until_done=False):
+        """Run to quiescence (until_done: only until every party's main coroutine has returned).
+        Returns 'done' | 'deadlock' | 'budget'."""
         while self.steps < max_steps:
+            if until_done and self.all_done():
+                return 'done'
             acts = self.enabled()
             if not acts:
                 if self.advance_time():
